@@ -1,13 +1,91 @@
-// Package c13 is the correspondence harness for property C13 (placeholder).
+// Package c13 is the correspondence harness for property C13: applying a container
+// adjustment to an OCI spec through the real generator
+// (pkg/runtime-tools/generate: SpecGenerator(...).Adjust, on top of the real runtime-tools
+// generator), each case applied many times with fresh generator, spec and adjustment so that
+// any dependence on map iteration order shows up as more than one distinct result.
 package c13
 
 import (
-	"errors"
+	"encoding/json"
+	"fmt"
+	"runtime"
+	"sync"
 
 	"verifh/internal/hx"
 	"verifh/internal/lineio"
 )
 
+func runAll(cases []namedIn, w *lineio.Writer) {
+	// cases are independent; results are written in input order
+	type res struct {
+		obs Obs
+	}
+	out := make([]res, len(cases))
+	var wg sync.WaitGroup
+	workers := runtime.NumCPU()
+	if workers > 4 {
+		workers = 4
+	}
+	ch := make(chan int)
+	for k := 0; k < workers; k++ {
+		wg.Add(1)
+		go func() {
+			defer wg.Done()
+			for i := range ch {
+				out[i].obs = Execute(&cases[i].in)
+			}
+		}()
+	}
+	for i := range cases {
+		ch <- i
+	}
+	close(ch)
+	wg.Wait()
+	for i := range cases {
+		w.Put(&lineio.Case{ID: cases[i].id, In: cases[i].in, Obs: out[i].obs})
+	}
+}
+
 func Run(o *hx.Opts, w *lineio.Writer) error {
-	return errors.New("C13 harness not implemented")
+	loadHostTable()
+	if o.Replay != "" {
+		cs, err := hx.ReplayCases(o.Replay)
+		if err != nil {
+			return err
+		}
+		var cases []namedIn
+		for _, c := range cs {
+			var in In
+			if err := json.Unmarshal(c.In, &in); err != nil {
+				return fmt.Errorf("replay case %s: %w", c.ID, err)
+			}
+			cases = append(cases, namedIn{c.ID, in})
+		}
+		runAll(cases, w)
+		return nil
+	}
+	// generated lazily and executed in batches so that the thorough tier stays small in memory
+	var cases []namedIn
+	flush := func(force bool) {
+		if len(cases) >= 2000 || (force && len(cases) > 0) {
+			runAll(cases, w)
+			cases = cases[:0]
+		}
+	}
+	cases = append(cases, systematic(o.Seed)...)
+	r := o.Rand(13)
+	n := o.N(12000, 100000)
+	for i := 0; i < n; i++ {
+		in := In{Kind: "rand", Spec: genSpec(r), Ext: defaultExt(), Runs: 30,
+			Adjust: genAdj(r, adjOpts{pFamily: 0.45, zeroLimit: true, setRemove: true})}
+		cases = append(cases, namedIn{fmt.Sprintf("rand-%d", i), in})
+		flush(false)
+	}
+	rx := o.Rand(1313)
+	for i := 0; i < o.N(1200, 8000); i++ {
+		cases = append(cases, namedIn{fmt.Sprintf("excl-%d", i), excluded(rx, i)})
+		flush(false)
+	}
+	flush(true)
+	return nil
 }
